@@ -382,7 +382,7 @@ class Compiler:
             labels.sort(key=lambda item: (item[1], item[0]))
             for name, value in labels:
                 if isinstance(value, int):
-                    result += oct(value)[2:].rjust(6, "0") + " " + name + "\n"
+                    result += ("-" if value < 0 else "") + oct(abs(value))[2:].rjust(6, "0") + " " + name + "\n"
 
             result += "\n"
 
